@@ -550,12 +550,14 @@ Definition d_c8cfg (x : xval) : option c8cfg :=
   | _, _ => None
   end.
 
+Definition c8_state0 (cfg : c8cfg) : c8_state := ([], repeat 0 (length (cf_handlers (c8_base cfg)) + 8)).
+
 Definition c8_run (drain head_rule : bool) (cfg : c8cfg) (reqs : list (c8req * bytes * nat))
   : list (option sent) * cstate :=
   conn_run c8req c8_state (fun q => rq_method (q_req q)) (fun q => header s_content_length (q_req q))
            (fun q => negb (q_nohost q)) q_raw_head
            (fun st q => c8_app cfg st (q_req q)) hardcoded_error_body (fun _ h => h) TOO_MANY drain head_rule
-           ([], repeat 0 (length (cf_handlers (c8_base cfg)) + 8)) (Open [])
+           (c8_state0 cfg) (Open [])
            (with_actions (c8_limit cfg) 1 reqs).
 
 (** ---- xval interface ---- *)
@@ -623,15 +625,46 @@ Definition run_parse (x : xval) : xval :=
   | _ => bad_input
   end.
 
-(** what the property demands of a case: (n answers, the connection stays usable) *)
+(** ---- the hypotheses of the theorems, as executable checks on a history of the fixture host ---- *)
+Definition is_nil {X} (l : list X) : bool := match l with [] => true | _ => false end.
+(** [reply_ok] of Proofs/Http1WriteProofs.v as a boolean *)
+Definition reply_okb (r : reply0) : bool :=
+  (100 <=? r0_status r) && (r0_status r <=? 999) && negb (r0_version r =? 9)
+  && forallb hdr_ok (r0_headers r) && forallb (fun h => beq (lower (fst h)) (fst h)) (r0_headers r)
+  && negb (existsb (is_name s_transfer_encoding) (r0_headers r))
+  && (negb (bodyless_status (r0_status r)) || is_nil (r0_body r))
+  && match r0_sanitize r with
+     | Some (Some (s, e)) => (s <? e) || (N.of_nat (length (r0_body r)) <=? s)
+     | _ => true
+     end.
+Definition c8_politeb (h : hreq c8req) : bool :=
+  negb (q_nohost (h_q c8req h))
+  && match h_action c8req h with ADrop => false | _ => true end
+  && (N.of_nat (length (h_body c8req h))
+      =? body_length (rq_method (q_req (h_q c8req h))) (header s_content_length (q_req (h_q c8req h)))).
+(** every request of the history is polite and every reply of the application along it is [reply_ok] *)
+Fixpoint c8_hyps (cfg : c8cfg) (st : c8_state) (hs : list (hreq c8req)) : bool :=
+  match hs with
+  | [] => true
+  | h :: rest =>
+      c8_politeb h &&
+      match h_action c8req h with
+      | ASend => c8_hyps cfg st rest
+      | _ => let '(st', r, _) := c8_app cfg st (q_req (h_q c8req h)) in reply_okb r && c8_hyps cfg st' rest
+      end
+  end.
+
+(** what the property demands of a case: (n answers, the connection stays usable), and whether the history
+    is an instance of the theorems' hypotheses ([checked_history_is_instance]) *)
 Definition run_expect (x : xval) : xval :=
   match x with
   | XL [c; XL rs] =>
-      match d_all d_c8req rs with
-      | Some reqs =>
+      match d_c8cfg c, d_all d_c8req rs with
+      | Some cfg, Some reqs =>
           XL [x_nat (length reqs);
-              x_bool (negb (existsb (fun '(q, _, _) => q_nohost q) reqs))]
-      | None => bad_input
+              x_bool (negb (existsb (fun '(q, _, _) => q_nohost q) reqs));
+              x_bool (c8_hyps cfg (c8_state0 cfg) (with_actions (c8_limit cfg) 1 reqs))]
+      | _, _ => bad_input
       end
   | _ => bad_input
   end.
